@@ -3,8 +3,10 @@ package rules
 import (
 	"fmt"
 	"go/ast"
+	"go/constant"
 	"go/token"
 	"go/types"
+	"sort"
 	"strings"
 
 	"golang.org/x/tools/go/ssa"
@@ -1124,6 +1126,94 @@ func c01FanOut(p *load.Program, r *oblig.Report) {
 		}
 	}
 	r.Check(okRet, rule, "WriteMessages → nil is returned iff no awaited batch failed", pos, "if !hasErrors { return nil }", "not recognised")
+	// the flag is sticky: once a failed batch was seen no later batch can clear it. Every value merged into the flag
+	// is `true`, the initial `false` from outside the wait loop, or a value assigned while the flag was tested false.
+	var flag *ssa.Phi
+	for _, b := range an.Blocks(WM) {
+		iff, _ := an.IfCond(b)
+		if iff == nil {
+			continue
+		}
+		c := an.CondOf(iff)
+		if u, isU := c.(*ssa.UnOp); isU && u.Op == token.NOT {
+			c = u.X
+		}
+		ph, isPhi := c.(*ssa.Phi)
+		if !isPhi {
+			continue
+		}
+		for _, s2 := range b.Succs {
+			if ret, ok := s2.Instrs[len(s2.Instrs)-1].(*ssa.Return); ok && len(ret.Results) == 1 && an.IsNilConst(an.RetVal(ret, 0)) {
+				flag = ph
+			}
+		}
+	}
+	if flag == nil {
+		return
+	}
+	closure := map[*ssa.Phi]bool{}
+	var clearers []string
+	var walk func(ph *ssa.Phi)
+	walk = func(ph *ssa.Phi) {
+		if closure[ph] {
+			return
+		}
+		closure[ph] = true
+		for _, e := range ph.Edges {
+			if q, isPhi := e.(*ssa.Phi); isPhi {
+				walk(q)
+			}
+		}
+	}
+	walk(flag)
+	testedFalse := func(pb *ssa.BasicBlock) bool {
+		for d, child := pb.Idom(), pb; d != nil; d, child = d.Idom(), d {
+			iff, _ := an.IfCond(d)
+			if iff == nil {
+				continue
+			}
+			c, neg := an.CondOf(iff), false
+			if u, isU := c.(*ssa.UnOp); isU && u.Op == token.NOT {
+				c, neg = u.X, true
+			}
+			ph, isPhi := c.(*ssa.Phi)
+			if !isPhi || !closure[ph] {
+				continue
+			}
+			falseIdx := 1
+			if neg {
+				falseIdx = 0
+			}
+			if edgeControls(d, falseIdx, child) {
+				return true
+			}
+		}
+		return false
+	}
+	for ph := range closure {
+		for i, e := range ph.Edges {
+			pb := ph.Block().Preds[i]
+			switch v := e.(type) {
+			case *ssa.Phi:
+				continue
+			case *ssa.Const:
+				if v.Value != nil && constant.BoolVal(v.Value) {
+					continue
+				}
+				// false: only as the initial value, i.e. from a block that is not inside a cycle through the merge
+				q := an.PathQuery{Fn: WM, Target: func(i2 ssa.Instruction) bool { return i2.Block() == pb }}
+				if q.ReachableFrom(an.Point{B: ph.Block(), Idx: -1}) == nil {
+					continue
+				}
+			}
+			if testedFalse(pb) {
+				continue
+			}
+			clearers = append(clearers, clean(an.Shape(e))+" merged at "+p.Pos(ph.Pos()))
+		}
+	}
+	sort.Strings(clearers)
+	r.Check(len(clearers) == 0, rule, "WriteMessages → a failed batch is never forgotten while waiting for the others", pos, "hasErrors only goes from false to true", strings.Join(clearers, "; "))
 }
 
 func c01WaitBeforeRead(p *load.Program, r *oblig.Report) {
